@@ -17,6 +17,15 @@ Monitors (all on the real cherab.tools.inversions functions):
   lstsq        : |g|_inf <= tau; residuals[0] = |Cx-d|^2 when non-empty.
   svd          : |W^T(Wx-b)|_inf <= tau and x orthogonal to null(W) (minimum norm), skipped when the numerical rank is ambiguous.
   zero_b       : b = 0 driven as its own class for all five entry points (x = 0 is the exact solution / minimiser).
+  signs        : measurement vectors without a positive entry (zeros and negatives), all-negative and mixed-sign vectors for all
+                 five entry points; SART accepts them (the rule and the convergence measure are defined, the iterates are clipped
+                 at zero) and is judged by the same lock-step reference, NNLS/LSQ/SVD by the same certificates; keys get the
+                 suffix :non-positive-measurements when b has no positive but a negative entry.
+  sequence     : 2-5 consecutive calls on the SAME W / b / Laplacian / Tikhonov / initial-guess objects, modified in place between
+                 calls (rows / columns rescaled or zeroed, entries perturbed, shapes kept; array initial guesses are warm starts),
+                 optionally interleaved with calls on other systems.  Every call is judged by its own oracle on the values the
+                 objects hold at call time; a twin call on fresh copies (40 % of the calls, and whenever the oracle objected)
+                 must give the same result: sequence:<solver>:result-depends-on-previous-call.
 """
 import warnings
 
@@ -38,7 +47,8 @@ RULE = ("random systems: grids nx,ny in 1..8 (n = nx*ny cells), m in 1..40 obser
         "uint8 / bool / float32 / Fortran / non-contiguous view / nested list, b as int64 / float32 / list / view, Tikhonov "
         "and Laplacian as int / float32 / list / strided, alpha as int / numpy scalars, initial guesses as bool / numpy "
         "scalars / int / float32 / list / view; what the unchanged code refuses with a clean TypeError/ValueError is a "
-        "counted skip class.  A case is non-trivial when a "
+        "counted skip class.  Measurements also without any positive entry / all negative / mixed sign.  12 % of the cases "
+        "are call sequences (2-5 calls reusing the same objects modified in place, see module docstring).  A case is non-trivial when a "
         "deciding comparison (iterate, KKT / normal-equation certificate) was evaluated on a system with W != 0, b != 0; "
         "distinct = distinct system recipes")
 LEVEL_TEXT = ("Exploration by runtime reference-model monitoring: every generated system is solved by the real functions and "
@@ -56,6 +66,8 @@ ASSUMPTIONS = ["geometry matrices have non-negative entries; all oracles work in
                "matrices given in single precision (float32; for the SVD wrapper also bool/uint8, which LAPACK maps to 's') may "
                "be processed in single precision: certificates are then judged to 1e-3 instead of 1e-8",
                "max_iterations >= 1; 0 < relaxation < 2",
+               "a call must not depend on earlier calls: same values => same result (iterates within twice the propagated "
+               "rounding bound; LSQ-type solvers compared in data space C x to 1e-7 of |C||x|+|d|)",
                "for zero-length rays / unseen cells the docstring formula is read as 'no contribution'",
                "a minimiser is certified to relative gradient accuracy 1e-8 (scale |C|^2|x| + |C||d|)",
                "for b = 0 the SART stopping measure is 0/0: only 'returns some iterate of the rule / stays at 0' is judged",
@@ -67,7 +79,7 @@ ASAN_MODULES = ['cherab.tools.inversions.sart']
 ASAN = dict(cases=3000, workers=8, timecap=240)
 QUICK = dict(cases=3000, workers=2, timecap=38)
 THOROUGH = dict(cases=100000, workers=16, timecap=600)
-REQUIRED = {"sart_iterate": 1000, "csart_iterate": 800, "sart_conv": 500, "csart_conv": 500, "sart_stop": 50,
+REQUIRED = {"seq_calls": 150, "seq_twin": 200, "nonpos_b": 40, "sart_iterate": 1000, "csart_iterate": 800, "sart_conv": 500, "csart_conv": 500, "sart_stop": 50,
             "csart_stop": 50, "sart_nonneg": 80, "csart_nonneg": 80, "fixed_point": 100, "nnls_kkt": 50,
             "nnls_rnorm": 50, "lstsq_normal": 30, "lstsq_residual": 10, "svd_normal": 20, "svd_min_norm": 10,
             "zero_b": 10}
@@ -128,8 +140,8 @@ def gen_case(rng, tier):
     case["wscale"] = float(10 ** rng.uniform(-6, 3)) if rng.random() < 0.5 else 1.0
     case["xscale"] = float(10 ** rng.uniform(-3, 8)) if rng.random() < 0.5 else 1.0
     case["xkind"] = _pick(rng, ["random", "sparse", "blob", "const"], [0.4, 0.25, 0.25, 0.1])
-    case["bkind"] = _pick(rng, ["consistent", "noisy", "noisy_signed", "random", "single", "zero"],
-                          [0.30, 0.30, 0.10, 0.12, 0.06, 0.12])
+    case["bkind"] = _pick(rng, ["consistent", "noisy", "noisy_signed", "random", "single", "zero", "nonpositive", "all_negative",
+                                "mixed"], [0.27, 0.27, 0.09, 0.10, 0.05, 0.10, 0.05, 0.03, 0.04])
     case["noise"] = float(10 ** rng.uniform(-3, -0.5))
     if solver in ("sart", "csart"):
         case["relaxation"] = 1.0 if rng.random() < 0.3 else float(rng.uniform(0.1, 1.9))
@@ -158,6 +170,12 @@ def gen_case(rng, tier):
         if case["tikkind"] == "lap_unseen" and rng.random() < 0.7:
             case["alpha"] = 1e-11
     _gen_reps(rng, case)
+    if rng.random() < 0.12:
+        # call sequence: the same argument objects reused and modified in place between 2-5 calls
+        case["reps"] = {a: r for a, r in case["reps"].items() if r not in REJECTED.get((solver, a), ())}
+        case["seq"] = dict(n=int(rng.integers(2, 6)), interleave=bool(rng.random() < 0.5), seed=int(rng.integers(2 ** 31)))
+        if "max_iterations" in case:
+            case["max_iterations"] = min(case["max_iterations"], 80)
     return case
 
 
@@ -241,6 +259,19 @@ def fixed_cases(tier):
         out.append(dict(s, nx=1, ny=1, m=1, wkind="dense"))
         out.append(dict(s, wscale=1e-6, xscale=1e8))
         out.append(dict(s, bkind="noisy_signed", noise=0.3, tikkind="lap4", alpha=0.5))
+    for solver in ("sart", "csart", "nnls", "lstsq", "svd"):
+        s = dict(base, solver=solver, seq=dict(n=3, interleave=True, seed=5))
+        if solver in ("sart", "csart"):
+            s.update(sart, x0kind="array")
+        if solver == "csart":
+            s.update(beta=0.01, lapkind="lap8")
+        if solver in ("nnls", "lstsq"):
+            s.update(alpha=0.05, tikkind="lap4")
+        out.append(dict(s))
+        out.append(dict(s, seq=dict(n=4, interleave=False, seed=6), reps={"W": "T"}))
+        for bk in ("nonpositive", "all_negative", "mixed"):
+            t = {k: v for k, v in s.items() if k != "seq"}
+            out.append(dict(t, bkind=bk))
     # regression witness of the scipy.optimize.nnls pass-through finding (one chord seeing 3 of 5 cells, identity Tikhonov)
     out.append(dict(base, solver="nnls", nx=1, ny=5, m=1, wkind="explicit", W=[[0.0, 0.0, 0.804, 0.475, 0.583]],
                     bkind="explicit", b=[0.001], alpha=0.102, tikkind="none"))
@@ -311,34 +342,209 @@ def _f32(case, *args):
     return any(reps.get(a) in ("float32",) for a in args)
 
 
-def run_case(case, ctx):
+def _build_objects(case):
+    """Values (float64, what the oracles use) and the argument objects (what the real code gets) of one case."""
     reps = case.get("reps", {})
     q = int(case.get("q", 20))
-    W = rm.rep_values(rm.build_w(case), reps.get("W"), q)          # float64 values the oracle works on
-    b0, xt = rm.build_b(case, W)
-    b = rm.rep_values(b0, reps.get("b"), 100)
-    Wa, ba = rm.represent(W, reps.get("W")), rm.represent(b, reps.get("b"))   # objects handed to the real code
-    _classes(case, ctx, W, b)
-    for a, r in reps.items():
-        ctx.cls("rep:%s=%s" % (a, r))
-    kctx = _Keyed(ctx, _rep_tag(case))
     solver = case["solver"]
+    o = {}
+    o["W"] = rm.rep_values(rm.build_w(case), reps.get("W"), q)
+    b0, o["xt"] = rm.build_b(case, o["W"])
+    o["b"] = rm.rep_values(b0, reps.get("b"), 100)
+    o["Wa"], o["ba"] = rm.represent(o["W"], reps.get("W")), rm.represent(o["b"], reps.get("b"))
+    if solver in ("sart", "csart"):
+        o["L"] = o["La"] = None
+        if solver == "csart":
+            o["L"] = rm.rep_values(rm.grid_laplacian(case["nx"], case["ny"], case["lapkind"]), reps.get("T"), q)
+            o["La"] = rm.represent(o["L"], reps.get("T"))
+        o["arg0"], o["x0"] = _initial_guess(case, o["W"].shape[1], o["xt"])
+        o["x_exact"] = (case["x0kind"] == "exact" and bool(np.array_equal(o["x0"], o["xt"]))
+                        and bool(np.array_equal(o["b"], b0)))
+    elif solver in ("nnls", "lstsq"):
+        o["T"], o["Ta"], o["alpha"], o["alpha_arg"] = _tik_alpha(case, o["W"])
+    return o
+
+
+def _b_tag(b):
+    """measurement class that gets its own key suffix: no positive entry but at least one negative one"""
+    return ":non-positive-measurements" if (b.size and b.max() <= 0 and b.min() < 0) else ""
+
+
+def _judge(case, ctx, o):
+    """One call of the real solver on the objects in `o`, judged by the oracles on the values in `o`.  Returns the raw
+    result (None when nothing was returned / judged)."""
+    solver = case["solver"]
+    kctx = _Keyed(ctx, _rep_tag(case) + _b_tag(o["b"]))
+    if _b_tag(o["b"]):
+        ctx.cls("b_values:non-positive")
+        ctx.mon("nonpos_b")
+    elif o["b"].size and o["b"].min() < 0:
+        ctx.cls("b_values:mixed-sign")
     rej = _rejected(case)
     try:
         if solver in ("sart", "csart"):
-            _run_sart(case, kctx, W, b, xt, Wa, ba, bool(np.array_equal(b, b0)))
-        elif solver == "nnls":
-            _run_nnls(case, kctx, W, b, Wa, ba)
-        elif solver == "lstsq":
-            _run_lstsq(case, kctx, W, b, Wa, ba)
-        elif solver == "svd":
-            _run_svd(case, kctx, W, b, Wa, ba)
-        else:
-            raise ValueError(solver)
+            return _run_sart(case, kctx, o)
+        if solver == "nnls":
+            return _run_nnls(case, kctx, o)
+        if solver == "lstsq":
+            return _run_lstsq(case, kctx, o)
+        if solver == "svd":
+            return _run_svd(case, kctx, o)
+        raise ValueError(solver)
     except _Refused:
         ctx.skip("input representation refused by %s with a clean TypeError/ValueError (statement silent, not judged)" % solver)
         for ar in rej:
             ctx.cls("refused:%s:%s=%s" % ((solver,) + ar))
+        return None
+
+
+def run_case(case, ctx):
+    o = _build_objects(case)
+    _classes(case, ctx, o["W"], o["b"])
+    for a, r in case.get("reps", {}).items():
+        ctx.cls("rep:%s=%s" % (a, r))
+    if "seq" in case:
+        _run_sequence(case, ctx, o)
+    else:
+        _judge(case, ctx, o)
+
+
+# ---- call sequences: the same argument objects reused and modified in place between calls -------------------------
+
+def _invoke(case, Wa, ba, aux):
+    """The bare call of the real solver (used for the fresh-copy twin of a sequence step)."""
+    from cherab.tools.inversions import (invert_sart, invert_constrained_sart, invert_regularised_nnls,
+                                         invert_regularised_lstsq, invert_svd)
+    s = case["solver"]
+    with warnings.catch_warnings(), np.errstate(all="ignore"):
+        warnings.simplefilter("ignore")
+        if s == "sart":
+            return invert_sart(Wa, ba, initial_guess=aux["arg0"], max_iterations=int(case["max_iterations"]),
+                               relaxation=float(case["relaxation"]), conv_tol=float(case["conv_tol"]))
+        if s == "csart":
+            return invert_constrained_sart(Wa, aux["La"], ba, initial_guess=aux["arg0"], max_iterations=int(case["max_iterations"]),
+                                           relaxation=float(case["relaxation"]), beta_laplace=float(case.get("beta", 0.0)),
+                                           conv_tol=float(case["conv_tol"]))
+        if s == "nnls":
+            return invert_regularised_nnls(Wa, ba, alpha=aux["alpha_arg"], tikhonov_matrix=aux["Ta"], **aux.get("kw", {}))
+        if s == "lstsq":
+            return invert_regularised_lstsq(Wa, ba, alpha=aux["alpha_arg"], tikhonov_matrix=aux["Ta"])
+        return invert_svd(Wa, ba)
+
+
+def _mutate(arr, rng, nonneg):
+    """Modify an ndarray in place (object, shape and dtype kept): rescale / zero a row or column, perturb entries,
+    rescale everything.  Returns the name of the operation."""
+    kind = arr.dtype.kind
+    op = ["scale_row", "zero_row", "zero_col", "perturb", "scale_all"][int(rng.integers(5))]
+    i = int(rng.integers(arr.shape[0]))
+    sl = (i,) if arr.ndim == 1 else (i, slice(None))
+    if op == "zero_row":
+        arr[sl] = 0
+    elif op == "zero_col":
+        if arr.ndim == 2:
+            arr[:, int(rng.integers(arr.shape[1]))] = 0
+        else:
+            arr[sl] = 0
+    elif kind == "b":
+        arr[sl] = rng.random(arr[sl].shape) < 0.5 if arr.ndim == 2 else bool(rng.random() < 0.5)
+        op = "perturb"
+    elif op == "scale_row":
+        arr[sl] = arr[sl] * (float(rng.uniform(0.3, 3.0)) if kind == "f" else int(rng.integers(2, 4)))
+    elif op == "scale_all":
+        arr[...] = arr * (float(rng.uniform(0.3, 3.0)) if kind == "f" else 2)
+    else:
+        if kind == "f":
+            f = 1.0 + 0.5 * rng.uniform(-1, 1, arr.shape)
+            arr[...] = arr * f.astype(arr.dtype)
+            if not nonneg and arr.size:
+                j = tuple(int(rng.integers(s)) for s in arr.shape)
+                arr[j] = -arr[j] if arr[j] != 0 else arr.dtype.type(1.0)
+        else:
+            arr[...] = arr + (rng.random(arr.shape) < 0.3).astype(arr.dtype)
+    return op
+
+
+def _run_sequence(case, ctx, o):
+    """2-5 consecutive calls with the SAME objects, modified in place in between (optionally interleaved with a call on
+    another system).  Every call is judged by its own oracle on the values the objects hold at call time, and must agree
+    with a twin call that gets fresh copies of the same values."""
+    solver = case["solver"]
+    seq = case["seq"]
+    rng = np.random.default_rng([int(seq["seed"]), 1105])
+    single = _f32(case, "W", "T") or (solver == "svd" and case.get("reps", {}).get("W") in ("bool", "uint8"))
+    ctx.cls("sequence:" + solver)
+    mutable = [k for k in ("Wa", "ba", "La", "Ta") if isinstance(o.get(k), np.ndarray)]
+    for step in range(int(seq["n"])):
+        if step > 0:
+            for _ in range(int(rng.integers(1, 4))):
+                k = mutable[int(rng.integers(len(mutable)))]
+                ctx.cls("seq_op:%s:%s" % (k, _mutate(o[k], rng, nonneg=(k == "Wa"))))
+            if isinstance(o.get("arg0"), np.ndarray) and rng.random() < 0.5:
+                o["arg0"][...] = (np.abs(o["x0"]) * rng.uniform(0, 2, o["x0"].shape)).astype(o["arg0"].dtype)
+                ctx.cls("seq_op:x0:refill")
+            if seq.get("interleave") and rng.random() < 0.6:
+                other = {k: v for k, v in case.items() if k != "seq"}
+                other.update(wseed=int(rng.integers(2 ** 31)), bseed=int(rng.integers(2 ** 31)),
+                             m=int(rng.integers(1, 30)))
+                ctx.cls("seq_op:interleaved-call")
+                _judge(other, ctx, _build_objects(other))
+            # the values the oracles use are what the objects hold NOW
+            o["W"] = np.array(o["Wa"], dtype=float)
+            o["b"] = np.array(o["ba"], dtype=float)
+            if o.get("La") is not None:
+                o["L"] = np.array(o["La"], dtype=float)
+            if o.get("Ta") is not None:
+                o["T"] = np.array(o["Ta"], dtype=float)
+            if isinstance(o.get("arg0"), np.ndarray):
+                o["x0"] = np.array(o["arg0"], dtype=float)      # warm start: previous solution or the refill
+            o["x_exact"] = False
+        # twin arguments: fresh objects, same values / dtypes
+        cp = lambda v: v.copy() if isinstance(v, np.ndarray) else (list(map(list, v)) if isinstance(v, list) and v and isinstance(v[0], list) else (list(v) if isinstance(v, list) else v))  # noqa
+        twin = dict(Wa=cp(o["Wa"]), ba=cp(o["ba"]), aux={k: cp(o[k]) for k in ("arg0", "La", "Ta", "alpha_arg") if k in o})
+        o["_tol"] = None
+        o.pop("_kw", None)
+        nviol = sum(ctx.viol_counts.values())
+        res = _judge(case, ctx, o)
+        ctx.mon("seq_calls")
+        if res is None:
+            continue
+        # The twin call is itself a call on other objects, i.e. it breaks the "same object again" adjacency that a
+        # remembered-state defect needs: it is made for a random 40 % of the calls, and always when the oracle objected
+        # to the reused call (then it tells whether the fault is history dependence or the rule itself).
+        if sum(ctx.viol_counts.values()) == nviol and rng.random() >= 0.4:
+            continue
+        twin["aux"]["kw"] = o.get("_kw", {})
+        res_f = _invoke(case, twin["Wa"], twin["ba"], twin["aux"])
+        key = "sequence:%s:result-depends-on-previous-call" % solver
+        what = ("call %d of a sequence that reuses the same argument objects (modified in place between calls) returns a "
+                "different result than the same call on fresh copies of the same values" % (step + 1))
+        if solver in ("sart", "csart"):
+            x, xf = np.asarray(res[0], dtype=float), np.asarray(res_f[0], dtype=float)
+            if len(res[1]) != len(res_f[1]):
+                if o.get("_certain_stop"):
+                    ctx.mon("seq_twin")
+                    ctx.viol(key, what + " (different number of iterations)", step=step, got=len(res[1]), fresh=len(res_f[1]))
+                else:
+                    ctx.skip("sequence twin: borderline stopping decision, iterates not compared")
+            elif o["_tol"] is None:
+                ctx.skip("sequence twin: amplifying iteration, iterates not compared")
+            else:
+                ctx.close(x, xf, key, what, atol=2 * o["_tol"], monitor="seq_twin", step=step)
+        else:
+            x, xf = np.asarray(res[0] if solver != "svd" else res, dtype=float), np.asarray(res_f[0] if solver != "svd" else res_f, dtype=float)
+            if solver == "svd":
+                C, d = o["W"], o["b"]
+            else:
+                C, d = rm.stacked(o["W"], o["b"], o["alpha"], o["T"])
+            nC = float(np.linalg.norm(C, 2)) if C.size else 0.0
+            scale = nC * max(float(np.linalg.norm(x)), float(np.linalg.norm(xf))) + float(np.linalg.norm(d))
+            tol = (1e-3 if single else 1e-7) * scale
+            # compared in data space (well conditioned): the fitted values, and the reported norm
+            ctx.close(C @ x, C @ xf, key, what, atol=tol if tol > 0 else 0.0, monitor="seq_twin", step=step)
+            if solver == "nnls":
+                ctx.close(float(res[1]), float(res_f[1]), key, what + " (reported residual norm)", atol=tol if tol > 0 else 0.0,
+                          monitor="seq_twin", step=step)
 
 
 class _Refused(Exception):
@@ -411,21 +617,16 @@ def _initial_guess(case, n, xt):
     return arg, vals.copy()
 
 
-def _run_sart(case, ctx, W, b, xt, Wa, ba, b_exact):
+def _run_sart(case, ctx, o):
     from cherab.tools.inversions import invert_sart, invert_constrained_sart
     fn = case["solver"]
+    W, b, xt, Wa, ba = o["W"], o["b"], o["xt"], o["Wa"], o["ba"]
+    L, La, arg0, x0, x_exact = o["L"], o["La"], o["arg0"], o["x0"], o["x_exact"]
     m, n = W.shape
     K = int(case["max_iterations"])
     omega = float(case["relaxation"])
     ctol = float(case["conv_tol"])
     beta = float(case.get("beta", 0.0))
-    reps = case.get("reps", {})
-    L = La = None
-    if fn == "csart":
-        L = rm.rep_values(rm.grid_laplacian(case["nx"], case["ny"], case["lapkind"]), reps.get("T"), int(case.get("q", 20)))
-        La = rm.represent(L, reps.get("T"))
-    arg0, x0 = _initial_guess(case, n, xt)
-    x_exact = case["x0kind"] == "exact" and bool(np.array_equal(x0, xt)) and b_exact
     bzero = not b.any()
     ctx.cls("x0:" + case["x0kind"])
     if fn == "csart":
@@ -474,7 +675,7 @@ def _run_sart(case, ctx, W, b, xt, Wa, ba, b_exact):
             ctx.check(not sol.any(), "%s:zero-measurement-fixed-point" % fn,
                       "b = 0 and x0 = 0 (exact non-negative solution) but the returned solution is not 0", monitor="fixed_point")
             ctx.mon("fixed_point", n - 1)
-            return
+            return sol, conv
         # the stopping measure is 0/0 for b = 0 (statement silent): the result must be *some* iterate of the rule
         best, unjudged, matched = None, 0, False
         for k in (range(K) if K > 1 else [0]):
@@ -499,9 +700,10 @@ def _run_sart(case, ctx, W, b, xt, Wa, ba, b_exact):
                          "b = 0: returned solution is none of the iterates x^(1..max_iterations) of the documented rule", ratio=best)
         else:
             ctx.skip("b = 0: iteration amplifies rounding errors, iterate not judged")
-        return
+        return sol, conv
 
     # stopping rule
+    o["_certain_stop"] = not out["borderline"]
     if out["borderline"]:
         ctx.skip("stopping decision numerically borderline (followed, counted, not judged)")
         ctx.mon("stop_borderline", len(out["borderline"]))
@@ -524,13 +726,14 @@ def _run_sart(case, ctx, W, b, xt, Wa, ba, b_exact):
     if (~judge).any():
         ctx.skip("convergence entries with overflowed / amplified iterates not judged")
     if not same_len:
-        return
+        return sol, conv
     # final iterate
     t = tol_at(nref - 1)
     if (not np.all(np.isfinite(t))) or (not np.all(np.isfinite(out["x"]))) or t.max() > AMPLIFY_LIMIT * scale:
         ctx.skip("iteration amplifies rounding errors beyond 1e-6 of the solution scale (iterate not judged)")
         ctx.cls("amplifying")
-        return
+        return sol, conv
+    o["_tol"] = t
     ctx.close(sol, out["x"], "%s:iterate-mismatch" % fn,
               "returned solution differs from the iterate of the documented update rule after the same number of iterations",
               atol=t, monitor="%s_iterate" % fn, iterations=nref, g=ref.g)
@@ -546,6 +749,7 @@ def _run_sart(case, ctx, W, b, xt, Wa, ba, b_exact):
                 ctx.check(len(conv) == 2, "%s:fixed-point-not-converged" % fn,
                           "started at an exact solution with conv_tol > 0 but did not stop after the second iteration",
                           monitor="fixed_point_stop", got=len(conv))
+    return sol, conv
 
 
 # ---- regularised least squares ----------------------------------------------------------------
@@ -568,9 +772,10 @@ def _tik_alpha(case, W):
     return T, Ta, float(aa), aa
 
 
-def _run_nnls(case, ctx, W, b, Wa, ba):
+def _run_nnls(case, ctx, o):
     from cherab.tools.inversions import invert_regularised_nnls
-    T, Ta, alpha, alpha_arg = _tik_alpha(case, W)
+    W, b, Wa, ba = o["W"], o["b"], o["Wa"], o["ba"]
+    T, Ta, alpha, alpha_arg = o["T"], o["Ta"], o["alpha"], o["alpha_arg"]
     # single-precision matrices may legitimately be processed in single precision (alpha * float32 array is float32)
     single = _f32(case, "W", "T")
     rtol = GRAD_RTOL32 if single else GRAD_RTOL
@@ -603,6 +808,7 @@ def _run_nnls(case, ctx, W, b, Wa, ba):
                 ctx.skip("scipy.optimize.nnls exhausted its default 3n iterations (documented RuntimeError); retried with maxiter=50n")
                 ctx.mon("nnls_maxiter_retry")
                 del rec[:]
+                o["_kw"] = dict(maxiter=50 * W.shape[1])
                 try:
                     res = _call(case, lambda: invert_regularised_nnls(Wa, ba, alpha=alpha_arg, tikhonov_matrix=Ta,
                                                                       maxiter=50 * W.shape[1]))
@@ -652,6 +858,8 @@ def _run_nnls(case, ctx, W, b, Wa, ba):
             tau_s = _tau(nC_s, nx_s, nd_s, rtol)
             xinf_s = float(np.max(np.abs(x_s))) if x_s.size else 0.0
             vmax = float(d.max())
+            if vmax <= 0:
+                vmax = 1.0          # documented: nothing to normalise by when no measurement is positive
             # the wrapper did its documented job: handed over [W; alpha L]/max(d), [b; 0]/max(d) and returned scipy's x and
             # rnorm * max(d) unchanged -- only then can a failure be attributed to the third-party solver
             frt = 1e-12 if not single else 1e-5
@@ -691,11 +899,13 @@ def _run_nnls(case, ctx, W, b, Wa, ba):
                   if upstream_rn else "") + "reported residual norm differs from |Cx-d| of the returned x",
                  plain=upstream_rn, got=rnorm, want=rn, tol=t)
     ctx.nontrivial(bool(W.any()) and not bzero)
+    return x, rnorm
 
 
-def _run_lstsq(case, ctx, W, b, Wa, ba):
+def _run_lstsq(case, ctx, o):
     from cherab.tools.inversions import invert_regularised_lstsq
-    T, Ta, alpha, alpha_arg = _tik_alpha(case, W)
+    W, b, Wa, ba = o["W"], o["b"], o["Wa"], o["ba"]
+    T, Ta, alpha, alpha_arg = o["T"], o["Ta"], o["alpha"], o["alpha_arg"]
     single = _f32(case, "W", "T")
     rtol = GRAD_RTOL32 if single else GRAD_RTOL
     relax = rtol / GRAD_RTOL
@@ -728,10 +938,12 @@ def _run_lstsq(case, ctx, W, b, Wa, ba):
     else:
         ctx.skip("lstsq returned empty residuals (rank-deficient stacked system): nothing reported to judge")
     ctx.nontrivial(bool(W.any()) and not bzero)
+    return x, res[1]
 
 
-def _run_svd(case, ctx, W, b, Wa, ba):
+def _run_svd(case, ctx, o):
     from cherab.tools.inversions import invert_svd
+    W, b, Wa, ba = o["W"], o["b"], o["Wa"], o["ba"]
     bzero = not b.any()
     m, n = W.shape
     # scipy.linalg.pinv works in single precision for float32 and for the small dtypes LAPACK maps to 's' (bool, uint8)
@@ -771,3 +983,4 @@ def _run_svd(case, ctx, W, b, Wa, ba):
                       "solution has a component in the null space of W (not the Moore-Penrose solution)",
                       atol=tol, monitor="svd_min_norm")
     ctx.nontrivial(bool(W.any()) and not bzero)
+    return x
